@@ -10,7 +10,7 @@
     W is the half-width in days of the date-pair window enumerated by this run
     (quick: 800; thorough: 47846 = every pair of dates in the range). *)
 From Coq Require Import ZArith Bool Uint63 PrimFloat String.
-From Bermuda Require Import Lib.PyPrim Lib.Loop.
+From Bermuda Require Import Lib.PyPrim Lib.Loop Lib.Calendar.
 From Gen Require Import GenDate C12_Base C12_Lift C12_Derive.
 Local Open Scope Z_scope.
 
@@ -88,6 +88,20 @@ Theorem C12_day_arithmetic_is_ordinal_addition : forall o q,
   ord_of_date (date_add_days (D o) (of_Z q)) = of_Z (o + q).
 Proof. exact day_add_exact. Qed.
 Print Assumptions C12_day_arithmetic_is_ordinal_addition.
+
+(** Bridge to the Z-level calendar of the structural models (Lib/Calendar.v): on month-aligned
+    dates (first or last day of a month) the float-based add_months of the source IS the integer
+    month shift `addm` (offsets -KB..KB; KB = 120 in the quick tier, 600 in the thorough tier). *)
+Theorem C12_add_months_agrees_with_Z_calendar : forall id k, 0 <= id <= 1571 -> - KB <= k <= KB ->
+  (stays (month_start_of_id (of_Z id)) (of_Z k) = true ->
+   to_Z (ord_of_date (py_add_months (month_start_of_id (of_Z id)) (K k)))
+   = addm (to_Z (ord_of_date (month_start_of_id (of_Z id)))) k)
+  /\
+  (stays (month_end_of_id (of_Z id)) (of_Z k) = true ->
+   to_Z (ord_of_date (py_add_months (month_end_of_id (of_Z id)) (K k)))
+   = addm (to_Z (ord_of_date (month_end_of_id (of_Z id)))) k).
+Proof. exact addm_agrees. Qed.
+Print Assumptions C12_add_months_agrees_with_Z_calendar.
 
 (** Years 1900-1969.  Month-end to month-end integer shifts are still exact ... *)
 Theorem C12_pre1970_month_end_shifts : forall id k, MINID0 <= id <= -1 -> -600 <= k <= 600 ->
